@@ -79,8 +79,13 @@ func c16GenPerm(t *rapid.T) c16Case {
 
 type voteKey struct{ src, tgt int }
 
+type sentVote struct {
+	key, src, tgt int
+}
+
 // c16Run executes one schedule; it returns the number of finalization steps and whether conflicting votes occurred.
 func c16Run(c c16Case, events []ev, x *pbt.Ctx) (int, bool, error) {
+	var sent []sentVote
 	h, err := newHist(evCase{Tree: c.Tree})
 	if err != nil {
 		return 0, false, err
@@ -160,6 +165,7 @@ func c16Run(c c16Case, events []ev, x *pbt.Ctx) (int, bool, error) {
 					honest[key] = append(honest[key], voteKey{src, tgt})
 				}
 				msg := w.Vote(key, src, tgt)
+				sent = append(sent, sentVote{key, src, tgt})
 				var verr error
 				_, hung, dump := callWithWatchdog(callLimit, func() error { verr = h.n.Chain.ProcessBlockVerification(msg); return nil })
 				if hung {
@@ -208,6 +214,52 @@ func c16Run(c c16Case, events []ev, x *pbt.Ctx) (int, bool, error) {
 		}
 		if !h.n.Chain.InMainChain(w.Hash(fin)) {
 			return 0, false, fail("the last finalized checkpoint #%d is not reported on the main chain", fin)
+		}
+	}
+	// a second node gets the same blocks (all first) and the same verification messages in another
+	// order: whatever either node finalizes must lie on one chain
+	if len(sent) > 1 {
+		n2, err := ck.NewNode(w, ck.NewMemDB())
+		if err != nil {
+			return 0, false, fmt.Errorf("HARNESS: %v", err)
+		}
+		defer n2.Stop()
+		for i := 1; i < len(w.Blocks); i++ {
+			if h.delivered[i] {
+				n2.Deliver(i)
+			}
+		}
+		h2 := &hist{w: w, n: n2, delivered: h.delivered}
+		order := make([]int, len(sent))
+		for i := range order {
+			order[i] = i
+		}
+		// deterministic other order: by target height descending, then reverse arrival
+		for i := 0; i < len(order); i++ {
+			for j := i + 1; j < len(order); j++ {
+				a, b := sent[order[i]], sent[order[j]]
+				ha, hb := w.Blocks[a.tgt].Block.Height, w.Blocks[b.tgt].Block.Height
+				if hb > ha || (hb == ha && order[j] > order[i]) {
+					order[i], order[j] = order[j], order[i]
+				}
+			}
+		}
+		for _, oi := range order {
+			v := sent[oi]
+			msg := w.Vote(v.key, v.src, v.tgt)
+			_, hung, dump := callWithWatchdog(callLimit, func() error { n2.Chain.ProcessBlockVerification(msg); return nil })
+			if hung {
+				return 0, false, hangError("ProcessBlockVerification (second node)", dump)
+			}
+			fin2, err := h2.finalizedIdx()
+			if err != nil {
+				return 0, false, err
+			}
+			for a := range everFinal {
+				if !w.IsAncestor(a, fin2) && !w.IsAncestor(fin2, a) {
+					return 0, false, fmt.Errorf("two nodes that received the same blocks and verification messages in different orders finalized checkpoints that are not on one chain: #%d (height %d) on the first node, #%d (height %d) on the second\nbyzantine slot %d; history of the first node:\n  %s", a, w.Blocks[a].Block.Height, fin2, w.Blocks[fin2].Block.Height, c.Byz, joinLines(h.desc))
+				}
+			}
 		}
 	}
 	return finSteps, conflicting, nil
